@@ -58,6 +58,7 @@ pub fn grid(seed: u64, tier: Tier) -> Vec<(String, Logical)> {
                     },
                     dedup: false,
                     aux_seed: rng.next_u64(),
+                    opts: Default::default(),
                 };
                 out.push((
                     format!("g-{}-{}-{}", packaging.name(), comp.name(), n),
@@ -85,9 +86,40 @@ pub fn grid(seed: u64, tier: Tier) -> Vec<(String, Logical)> {
                 },
                 dedup: false,
                 aux_seed: rng.next_u64(),
+                opts: Default::default(),
             };
             out.push((format!("m-{}-{}-p{}", packaging.name(), comp.name(), packs), logical));
         }
+    }
+    // packs that can only be found by uuid inside the file at hand (every recorded location is
+    // empty), and a container that stores one pack twice
+    for (j, (tag, opts)) in [
+        ("emptyloc", LogicalOpts { empty_locations: true, concat_dup: false }),
+        ("dup", LogicalOpts { empty_locations: false, concat_dup: true }),
+    ]
+    .into_iter()
+    .enumerate()
+    {
+        let mut rng = Rng::derive(seed, "grid-concat-variants", k);
+        k += 1;
+        let packs = 3 - j as u16;
+        let comp = if j == 0 { Comp::None } else { Comp::Zstd(5) };
+        let logical = Logical {
+            comp,
+            packaging: Packaging::Concat,
+            n_packs: packs,
+            contents: contents_small(&mut rng, 3 * packs as usize, 100, Hint::Yes, packs),
+            schema: SchemaSpec {
+                key_prefix: 1,
+                store: StoreKind::Indexed,
+                variants: false,
+                key_pad: 0,
+            },
+            dedup: false,
+            aux_seed: rng.next_u64(),
+            opts,
+        };
+        out.push((format!("m-concat-{tag}-{}-p{packs}", comp.name()), logical));
     }
     // directory pack and value store above the 4 KiB mmap threshold
     for (j, packaging) in [Packaging::Loose, Packaging::BasicOne].into_iter().enumerate() {
@@ -107,6 +139,7 @@ pub fn grid(seed: u64, tier: Tier) -> Vec<(String, Logical)> {
             },
             dedup: false,
             aux_seed: rng.next_u64(),
+            opts: Default::default(),
         };
         out.push((format!("bigdir-{}-{}", packaging.name(), comp.name()), logical));
     }
@@ -136,6 +169,7 @@ pub fn grid(seed: u64, tier: Tier) -> Vec<(String, Logical)> {
             },
             dedup: false,
             aux_seed: rng.next_u64(),
+            opts: Default::default(),
         };
         out.push(("many-contents-loose-none".to_string(), logical));
     }
